@@ -75,7 +75,7 @@ UnfoldIsListing(sh) ==
 ScansAreFirstMatch(sh, unknownKey, absentType) ==
   LET u == Unfold(sh)  l == Listing(sh) IN
   /\ \A k \in KeysOf(l) \cup {unknownKey} : ForName(u, k) = FirstKey(l, k)
-  /\ \A t \in TypesOf(l) \cup {absentType} : ForType(u, t) = FirstType(l, t)
+  /\ \A t \in TypesOf(l) \cup {absentType} \cup CloseAll(TypesOf(l)) : ForType(u, t) = FirstType(l, t)
 \* entries stored by value lie inside the struct (used by Optics: such an entry is a legitimate focus)
 ByValueInBounds(sh) ==
   LET l == Listing(sh) IN \A j \in 1..Len(l) : l[j].byval => l[j].abs >= 0 /\ l[j].abs + l[j].size <= SSize(sh)
